@@ -141,6 +141,123 @@ func doRange(ts []int64) rangeCase {
 	return rangeCase{ts, int64(l), int64(h)}
 }
 
+// ------------------------------------------------------------------ artifact trees
+
+type tnode struct {
+	Name     string
+	Kind     string // "reg" | "sym" | "fifo" | "dir"
+	Children []*tnode
+}
+
+type treeCase struct {
+	Tree     []*tnode
+	HasOther bool
+	Listed   []string
+	Survived []string
+}
+
+var fileNames = []string{"a.txt", "b~", "#c#", "#d~", "e#", "#", "~", "f.log", "#g", "h~x", "i.sh", "j#~", "k"}
+var dirNames = []string{"sub", "d~", "#g#", "deep", "artifacts", "x.d"}
+
+func genTree(rng *rand.Rand, depth int, fifoOK bool) []*tnode {
+	n := rng.Intn(5)
+	if depth == 0 && n == 0 {
+		n = 2
+	}
+	used := map[string]bool{}
+	var out []*tnode
+	for i := 0; i < n; i++ {
+		if depth < 3 && rng.Intn(3) == 0 {
+			nm := dirNames[rng.Intn(len(dirNames))]
+			if used[nm] {
+				continue
+			}
+			used[nm] = true
+			out = append(out, &tnode{Name: nm, Kind: "dir", Children: genTree(rng, depth+1, fifoOK)})
+			continue
+		}
+		nm := fileNames[rng.Intn(len(fileNames))]
+		if used[nm] {
+			continue
+		}
+		used[nm] = true
+		k := "reg"
+		switch r := rng.Intn(10); {
+		case r < 2:
+			k = "sym"
+		case r == 2 && fifoOK:
+			k = "fifo"
+		}
+		out = append(out, &tnode{Name: nm, Kind: k})
+	}
+	sort.Slice(out, func(i, j int) bool { return out[i].Name < out[j].Name })
+	return out
+}
+
+func hasFifo(ns []*tnode) bool {
+	for _, n := range ns {
+		if n.Kind == "fifo" || hasFifo(n.Children) {
+			return true
+		}
+	}
+	return false
+}
+
+func makeTree(dir string, ns []*tnode) {
+	for _, n := range ns {
+		p := filepath.Join(dir, n.Name)
+		switch n.Kind {
+		case "dir":
+			must(os.Mkdir(p, 0755))
+			makeTree(p, n.Children)
+		case "reg":
+			must(ioutil.WriteFile(p, []byte("x"), 0644))
+		case "sym":
+			must(os.Symlink("nowhere-or-somewhere", p))
+		case "fifo":
+			must(syscall.Mkfifo(p, 0644))
+		}
+	}
+}
+
+func doTree(root string, n int, ns []*tnode) treeCase {
+	dir := filepath.Join(root, "t"+strconv.Itoa(n))
+	must(os.Mkdir(dir, 0755))
+	makeTree(dir, ns)
+	l, s := cmd.VerifArtifacts(dir)
+	os.RemoveAll(dir)
+	return treeCase{ns, hasFifo(ns), l, s}
+}
+
+func coqNodes(ns []*tnode) string {
+	var it []string
+	for _, n := range ns {
+		switch n.Kind {
+		case "dir":
+			it = append(it, "NDir "+vh.Str(n.Name)+" "+coqNodes(n.Children))
+		case "reg":
+			it = append(it, "NFile "+vh.Str(n.Name)+" KReg")
+		case "sym":
+			it = append(it, "NFile "+vh.Str(n.Name)+" KSym")
+		default:
+			it = append(it, "NFile "+vh.Str(n.Name)+" KOther")
+		}
+	}
+	return vh.List(it)
+}
+
+func coqPaths(ps []string) string {
+	var it []string
+	for _, p := range ps {
+		var cs []string
+		for _, c := range strings.Split(p, "/") {
+			cs = append(cs, vh.Str(c))
+		}
+		it = append(it, vh.List(cs))
+	}
+	return vh.List(it)
+}
+
 // ------------------------------------------------------------------ plays
 
 type play struct {
@@ -183,12 +300,14 @@ type play struct {
 	PlotFilesExist      bool
 	MissingPlotFiles    []string
 	PlotsDir            bool
+	SurvivorsNamed      bool
+	UnnamedSurvivors    []string
 	Tree                []string
 }
 
 func (p *play) config() string {
 	var sb strings.Builder
-	sb.WriteString("role person\n  :run echo hello\n  :mk echo data >file.txt\n")
+	sb.WriteString("role person\n  :run echo hello\n  :mk echo data >file.txt; cp file.txt copy.txt; cp -b file.txt copy.txt; echo b >'notes~'; echo e >'#edit#'; echo h >'#half~'; mkdir -p 'old~'; echo k >'old~/kept.txt'\n")
 	if p.Fouled && (p.FoulKind == "action" || p.FoulKind == "early") {
 		sb.WriteString("  :bad echo failing >&2; false\n")
 	}
@@ -484,6 +603,30 @@ func (p *play) inspect(runDir string) {
 		}
 	}
 	walk(r.Artifacts)
+	named := map[string]bool{}
+	var names func(as []artifact)
+	names = func(as []artifact) {
+		for _, a := range as {
+			named[a.Path] = true
+			names(a.Children)
+		}
+	}
+	names(r.Artifacts)
+	p.SurvivorsNamed = true
+	filepath.Walk(runDir, func(path string, info os.FileInfo, err error) error {
+		if err != nil || info.IsDir() {
+			return nil
+		}
+		rel, _ := filepath.Rel(runDir, path)
+		if rel == "index.html" || rel == "upload.log" {
+			return nil // written after the tree is collected
+		}
+		if !named[rel] {
+			p.SurvivorsNamed = false
+			p.UnnamedSurvivors = append(p.UnnamedSurvivors, rel)
+		}
+		return nil
+	})
 	csvs, _ := filepath.Glob(filepath.Join(runDir, "csv", "*.csv"))
 	for _, f := range csvs {
 		cb, _ := ioutil.ReadFile(f)
@@ -689,6 +832,16 @@ func main() {
 	for _, ts := range [][]int64{{}, {0}, {5}, {-5}, {3000}, {-3000, -1000}, {100, 200, 5000}, {-1, 1}, {1024}, {1023}, {-1024, 0}} {
 		ranges = append(ranges, doRange(ts))
 	}
+	// ---- artifact trees
+	var trees []treeCase
+	nTrees := 150
+	if thorough {
+		nTrees = 2000
+	}
+	for i := 0; i < nTrees; i++ {
+		trees = append(trees, doTree(work, i, genTree(rng, 0, i%3 == 0)))
+	}
+
 	nr := 300
 	if thorough {
 		nr = 5000
@@ -816,19 +969,28 @@ func main() {
 	sb.WriteString("Definition range_cases : list range_case := " + vh.ListNL(items) + "%Z.\n")
 	items = nil
 	for _, p := range plays {
-		items = append(items, fmt.Sprintf("(Build_play_case %s %s %s %s %s %s %s %s %s %s %s %s %s %s %s %s %s %s %s %s %s %s %s %s %s %s)",
+		items = append(items, fmt.Sprintf("(Build_play_case %s %s %s %s %s %s %s %s %s %s %s %s %s %s %s %s %s %s %s %s %s %s %s %s %s %s %s)",
 			vh.Bool(p.Keep), vh.Bool(p.Clear), vh.Bool(p.NoPlot), vh.Bool(p.Quiet), vh.Bool(p.Upload), vh.Bool(p.Fouled),
 			vh.Bool(p.Repeat && !(p.Fouled && p.FoulKind == "early")),
 			vh.Str(p.Cwd), vh.Str(p.DataDir), vh.Str(p.RunID), vh.Option(p.AliasBefore != "", vh.Str(p.AliasBefore)),
 			vh.Bool(p.ExitNonzero), vh.Bool(len(p.Stray) > 0), vh.Bool(p.RundirExists), vh.Bool(p.ArtifactsExist),
 			vh.Str(p.LatestText), vh.Bool(p.LatestResolves), vh.Bool(p.ResultOK), vh.Bool(p.FoulFlag),
 			vh.Z(p.MinNs), vh.Z(p.MaxNs), "("+zlist(p.TimesNs)+")%Z", vh.Bool(p.RepeatSection),
-			vh.Bool(p.ArtifactsNamedExist), vh.Bool(p.PlotFilesExist), vh.Bool(p.PlotsDir)))
+			vh.Bool(p.ArtifactsNamedExist), vh.Bool(p.PlotFilesExist), vh.Bool(p.PlotsDir), vh.Bool(p.SurvivorsNamed)))
 	}
 	sb.WriteString("Definition play_cases : list play_case := " + vh.ListNL(items) + ".\n")
+	items = nil
+	nTreeFifo := 0
+	for _, c := range trees {
+		if c.HasOther {
+			nTreeFifo++
+		}
+		items = append(items, fmt.Sprintf("(Build_tree_case %s %s %s %s)", coqNodes(c.Tree), vh.Bool(c.HasOther), coqPaths(c.Listed), coqPaths(c.Survived)))
+	}
+	sb.WriteString("Definition tree_cases : list tree_case := " + vh.ListNL(items) + ".\n")
 	vh.WriteFile(*out, "cases.v", sb.String())
 	vh.WriteJSON(*out, "cases.json", map[string]interface{}{
-		"clean": cleans, "join": joins, "abs": abss, "link": links, "range": ranges, "play": plays})
+		"clean": cleans, "join": joins, "abs": abss, "link": links, "range": ranges, "play": plays, "tree": trees})
 	// distribution
 	dist := map[string]int{}
 	nontriv := map[string]bool{}
@@ -861,6 +1023,11 @@ func main() {
 			nontriv[fmt.Sprintf("range %v", c.Ts)] = true
 		}
 	}
+	for _, c := range trees {
+		if len(c.Listed)+len(c.Survived) >= 2 {
+			nontriv["tree "+coqNodes(c.Tree)] = true
+		}
+	}
 	var sample interface{}
 	for _, p := range plays {
 		if p.RundirExists && p.Repeat {
@@ -872,6 +1039,7 @@ func main() {
 	vh.WriteJSON(*out, "summary.json", map[string]interface{}{
 		"clean": len(cleans), "join": len(joins), "abs": len(abss), "link": len(links), "link_hook_errors": nLinkErr,
 		"range": len(ranges), "plays": len(plays), "play_distribution": dist,
+		"tree": len(trees), "trees_with_a_fifo": nTreeFifo,
 		"distinct_nontrivial": len(nontriv),
 		"samples": []interface{}{sample, links[2], ranges[len(ranges)-1]},
 	})
